@@ -182,35 +182,37 @@ def wSparseI (o : Opts) : List (Nat × Int) → List Tok
   | [] => []
   | (i, v) :: l => [.int i, wIntTok o v, .eol] ++ wSparseI o l
 
-/-! ## header: `WriteNLHeader` (always text, through `File::Printf`; the comments are always there) -/
+/-! ## header: `WriteNLHeader` (always text, through `File::Printf`; the comments are always there — their text, which
+    includes the problem name, is irrelevant to the reader and is not modelled: `.cmt ""`).  `C03_gen_header` proves these ten
+    functions equal to the evaluation of the statements clang extracts from `WriteNLHeader` on every run. -/
 def wH1 (h : Hdr) (o : Opts) : List Tok :=
   [.ch (if o.binary then .fmtB else .fmtG), .int h.nopts] ++ ((h.opts.take h.nopts).map (fun v => Tok.int v) ++
     -- vbtol is printed with `" %.17g"` since fe95054
-    ((if h.opts[1]? = some (3 : Int) then [.vbt h.vbtol] else []) ++ [.cmt ("problem " ++ h.probName), .eol]))
+    ((if h.opts[1]? = some (3 : Int) then [.vbt h.vbtol] else []) ++ [.cmt "", .eol]))
 def wH2 (h : Hdr) : List Tok :=
   [.int h.nv, .int h.nac, .int h.no, .int h.nr, .int h.ne] ++
-    ((if h.nrandv ≠ 0 then [.int h.nlc, .int h.nrandv] else if h.nlc ≠ 0 then [.int h.nlc] else []) ++ [.cmt "vars", .eol])
+    ((if h.nrandv ≠ 0 then [.int h.nlc, .int h.nrandv] else if h.nlc ≠ 0 then [.int h.nlc] else []) ++ [.cmt "", .eol])
 def wH3 (h : Hdr) : List Tok :=
   (if h.ncc ≠ 0 ∨ h.nrandc ≠ 0 ∨ h.nrando ≠ 0 then
       [.int h.nnlc, .int h.nnlo, .int ((h.ncc : Int) - h.nnlcc), .int h.nnlcc, .int h.ncdi, .int h.ncnz] ++
         (if h.nrandc ≠ 0 ∨ h.nrando ≠ 0 then [.int h.nrandc, .int h.nrando] else [])
-    else [.int h.nnlc, .int h.nnlo]) ++ [.cmt "nonlinear", .eol]
+    else [.int h.nnlc, .int h.nnlo]) ++ [.cmt "", .eol]
 def wH4 (h : Hdr) : List Tok :=
-  [.int h.nnnc, .int h.nlnc] ++ ((if h.nstages > 1 then [.int h.nstages] else []) ++ [.cmt "network", .eol])
+  [.int h.nnnc, .int h.nlnc] ++ ((if h.nstages > 1 then [.int h.nstages] else []) ++ [.cmt "", .eol])
 def wH5 (h : Hdr) : List Tok :=
-  [.int h.nlvc, .int h.nlvo, .int h.nlvb, .cmt "nonlinear vars", .eol]
+  [.int h.nlvc, .int h.nlvo, .int h.nlvb, .cmt "", .eol]
 def wH6 (h : Hdr) (o : Opts) : List Tok :=
   [.int h.nlnv, .int h.nf] ++
     ((if h.nrandv ≠ 0 then [.int (if o.binary then h.arith else 0), .int h.flags, .int h.nrandcalls]
      else if h.flags ≠ 0 ∨ h.arith ≠ 0 then [.int (if o.binary then h.arith else 0), .int h.flags] else []) ++
-    [.cmt "linear network", .eol])
+    [.cmt "", .eol])
 def wH7 (h : Hdr) : List Tok :=
-  [.int h.nlbv, .int h.nliv, .int h.nnlib, .int h.nnlic, .int h.nnlio, .cmt "discrete", .eol]
-def wH8 (h : Hdr) : List Tok := [.int h.nzc, .int h.nzo, .cmt "nonzeros", .eol]
-def wH9 (h : Hdr) : List Tok := [.int h.mcl, .int h.mvl, .cmt "max name lengths", .eol]
+  [.int h.nlbv, .int h.nliv, .int h.nnlib, .int h.nnlic, .int h.nnlio, .cmt "", .eol]
+def wH8 (h : Hdr) : List Tok := [.int h.nzc, .int h.nzo, .cmt "", .eol]
+def wH9 (h : Hdr) : List Tok := [.int h.mcl, .int h.mvl, .cmt "", .eol]
 def wH10 (h : Hdr) : List Tok :=
   [.int h.ceb, .int h.cec, .int h.ceo, .int h.cesc, .int h.ceso] ++
-    ((if h.nrandce ≠ 0 then [.int h.nrandce] else []) ++ [.cmt "common exprs", .eol])
+    ((if h.nrandce ≠ 0 then [.int h.nrandce] else []) ++ [.cmt "", .eol])
 def wHeader (h : Hdr) (o : Opts) : List Tok :=
   wH1 h o ++ (wH2 h ++ (wH3 h ++ (wH4 h ++ (wH5 h ++ (wH6 h o ++ (wH7 h ++ (wH8 h ++ (wH9 h ++ wH10 h))))))))
 
